@@ -100,10 +100,12 @@ type Path struct {
 	wantSample  bool
 	trapHandler func(m *Machine, name string, fn *ssa.Function, args []value) (value, bool)
 
-	lits      map[int]bool // literals implied by the path condition
-	models    []Model      // models known to satisfy the current path condition
-	initModel Model        // valid once the prefix has been replayed
-	blobs     []jsonBlob
+	lits          map[int]bool // literals implied by the path condition
+	models        []Model      // models known to satisfy the current path condition
+	initModel     Model        // valid once the prefix has been replayed
+	blobs         []jsonBlob
+	trapStrings   []value
+	trapsExpected bool
 }
 
 func (p *Path) replaying() bool { return len(p.trail) < len(p.prefix) }
